@@ -5,10 +5,10 @@ package main
 
 import (
 	"fmt"
-	"strconv"
 	"go/token"
 	"go/types"
 	"sort"
+	"strconv"
 	"strings"
 
 	"golang.org/x/tools/go/ssa"
@@ -58,24 +58,25 @@ type edge struct {
 }
 
 type loopInfo struct {
-	ord    int
-	header *ssa.BasicBlock
-	blocks map[*ssa.BasicBlock]bool
-	entry  *State // state at loop entry (before havoc)
-	head   *State // state after havoc
-	gIn    string
-	decH   string
-	spec   *LoopSpec
-	nback  int
+	ord       int
+	header    *ssa.BasicBlock
+	blocks    map[*ssa.BasicBlock]bool
+	entry     *State // state at loop entry (before havoc)
+	head      *State // state after havoc
+	gIn       string
+	decH      string
+	spec      *LoopSpec
+	nback     int
+	frameKeys []string
 }
 
 type World struct {
-	Prog   *ssa.Program
-	Specs  *Specs
-	Fset   *token.FileSet
-	FnByKey map[string]*ssa.Function
-	Opts   Options
-	recCache map[string]map[string]bool
+	Prog           *ssa.Program
+	Specs          *Specs
+	Fset           *token.FileSet
+	FnByKey        map[string]*ssa.Function
+	Opts           Options
+	recCache       map[string]map[string]bool
 	MutableGlobals map[*ssa.Global]bool
 }
 
@@ -84,68 +85,70 @@ type Options struct {
 }
 
 type Enc struct {
-	W        *World
-	fn       *ssa.Function
-	key      string
-	spec     *FuncSpec
-	items    []Item
-	n        int
-	sorts    map[string]string // state key -> sort
-	cellT    map[*ssa.Alloc]types.Type
-	cellName map[string][]*ssa.Alloc
-	regs     map[ssa.Value]Val
-	addrs    map[ssa.Value]lvalue
-	used     map[string]bool // spec functions used
-	usedTrusted map[string]bool
-	loops    map[*ssa.BasicBlock]*loopInfo
-	inEdges  map[*ssa.BasicBlock][]edge
-	exits    []edge
-	panics   []edge
-	entrySt  *State
-	entryCtx *Ctx
-	counters map[string]int
-	iterStr  map[ssa.Value]Val
-	strIds   []Val
-	outside  []string
-	curBlock *ssa.BasicBlock
-	defers   []*ssa.Defer
-	litk     int
-	closures map[ssa.Value]*ssa.MakeClosure
-	tupleOf  map[ssa.Value][]Val
-	callOrd  map[string]int
-	freeVars map[*ssa.FreeVar]lvalue
-	paramVals map[string]Val
-	xexit    []edge
-	usedLemmas map[string]bool
-	implUsed   map[string]types.Type
-	strKeys    []Val
-	iterMap    map[ssa.Value]Val
-	closureOf  map[string]*ssa.MakeClosure
-	inRaise    bool
-	lateBlocks map[*ssa.BasicBlock]bool
-	ghostUsed  map[int]bool
-	privateCells []*ssa.Alloc
-	privateFVs []*ssa.FreeVar
-	dynType    map[string]types.Type
-	fieldPtrs  map[string]lvalue
-	mon        *monState
-	monRel     map[string]*State
-	monAcq     map[string]*State
-	protectedSet map[string]bool
-	monSites   map[ssa.Instruction][2]int
-	curDefer   *ssa.Defer
-	unlockSeen map[string]int
-	monOwnerV  *Val
-	sharedSet  map[string]bool
-	roArrays   []roArray
-	genMerge   map[string][]edge
-	shadowParams map[string]bool
-	catMemo    map[string]Val
-	alias      map[string]string
+	W             *World
+	fn            *ssa.Function
+	key           string
+	spec          *FuncSpec
+	items         []Item
+	n             int
+	sorts         map[string]string // state key -> sort
+	cellT         map[*ssa.Alloc]types.Type
+	cellName      map[string][]*ssa.Alloc
+	regs          map[ssa.Value]Val
+	addrs         map[ssa.Value]lvalue
+	used          map[string]bool // spec functions used
+	usedTrusted   map[string]bool
+	loops         map[*ssa.BasicBlock]*loopInfo
+	inEdges       map[*ssa.BasicBlock][]edge
+	exits         []edge
+	panics        []edge
+	entrySt       *State
+	entryCtx      *Ctx
+	counters      map[string]int
+	iterStr       map[ssa.Value]Val
+	strIds        []Val
+	outside       []string
+	curBlock      *ssa.BasicBlock
+	defers        []*ssa.Defer
+	litk          int
+	closures      map[ssa.Value]*ssa.MakeClosure
+	tupleOf       map[ssa.Value][]Val
+	callOrd       map[string]int
+	freeVars      map[*ssa.FreeVar]lvalue
+	paramVals     map[string]Val
+	xexit         []edge
+	usedLemmas    map[string]bool
+	implUsed      map[string]types.Type
+	strKeys       []Val
+	iterMap       map[ssa.Value]Val
+	closureOf     map[string]*ssa.MakeClosure
+	inRaise       bool
+	lateBlocks    map[*ssa.BasicBlock]bool
+	ghostUsed     map[int]bool
+	privateCells  []*ssa.Alloc
+	privateFVs    []*ssa.FreeVar
+	dynType       map[string]types.Type
+	fieldPtrs     map[string]lvalue
+	mon           *monState
+	monRel        map[string]*State
+	monAcq        map[string]*State
+	protectedSet  map[string]bool
+	monSites      map[ssa.Instruction][2]int
+	curDefer      *ssa.Defer
+	unlockSeen    map[string]int
+	monOwnerV     *Val
+	sharedSet     map[string]bool
+	roArrays      []roArray
+	genMerge      map[string][]edge
+	shadowParams  map[string]bool
+	catMemo       map[string]Val
+	frameCov      map[string]bool
+	frameAll      bool
+	alias         map[string]string
 	loopPointKeys map[string][]string
 	loopPointSort map[string]string
-	frameRecv  *Val
-	frameRecvT types.Type
+	frameRecv     *Val
+	frameRecvT    types.Type
 }
 
 type lvalue struct {
@@ -615,12 +618,12 @@ func (e *Enc) specialPred(c *Ctx, name string, x interface{}) Val {
 // ---------- main driver ----------
 
 type funcResult struct {
-	Key       string
-	Items     []Item
-	Used      []string
-	Outside   string // non-empty: function left the subset
-	NLoops    int
-	Trusted   []string
+	Key     string
+	Items   []Item
+	Used    []string
+	Outside string // non-empty: function left the subset
+	NLoops  int
+	Trusted []string
 }
 
 // allocatedFacts: every reference held by a value was allocated before now.
@@ -799,10 +802,38 @@ func (e *Enc) loopWrites(li *loopInfo) (cells map[*ssa.Alloc]bool, heapAll bool,
 			heapKeys[mapValKey(mt, j)] = "(Array Int (Array Int " + so + "))"
 		}
 	}
+	var curArgs []ssa.Value
 	addSpecModifies := func(spec *FuncSpec) {
 		for _, m := range spec.Modifies {
 			switch {
-			case m == "all" || strings.HasPrefix(m, "*"):
+			case strings.HasPrefix(m, "*"):
+				// the object a pointer argument points to: every location of its type
+				done := false
+				for i, p := range spec.Params {
+					if p.Name == m[1:] && i < len(curArgs) {
+						if pt, ok := curArgs[i].Type().Underlying().(*types.Pointer); ok {
+							if a, isAlloc := curArgs[i].(*ssa.Alloc); isAlloc && a.Heap {
+								if r, known := e.regs[a]; known && !li.blocks[a.Block()] {
+									// a local object allocated before the loop: only that object changes
+									tmp := map[string]string{}
+									e.objectKeySorts(pt.Elem(), tmp)
+									for k, so := range tmp {
+										pointKeys[k] = append(pointKeys[k], r.C[0])
+										pointSort[k] = strings.TrimSuffix(strings.TrimPrefix(so, "(Array Int "), ")")
+									}
+									done = true
+									continue
+								}
+							}
+							e.objectKeySorts(pt.Elem(), heapKeys)
+							done = true
+						}
+					}
+				}
+				if !done {
+					heapAll = true
+				}
+			case m == "all":
 				heapAll = true
 			case m == "alloc":
 				heapKeys["alloc"] = SInt
@@ -830,7 +861,14 @@ func (e *Enc) loopWrites(li *loopInfo) (cells map[*ssa.Alloc]bool, heapAll bool,
 				case *ssa.FieldAddr:
 					pt := ad.X.Type().Underlying().(*types.Pointer).Elem()
 					ft := pt.Underlying().(*types.Struct).Field(ad.Field).Type()
-					if _, nested := ft.Underlying().(*types.Struct); nested {
+					if ia, isElem := ad.X.(*ssa.IndexAddr); isElem {
+						// field of a slice element: the element memory of that slice type
+						if sl, ok := ia.X.Type().Underlying().(*types.Slice); ok {
+							addElems(sl.Elem())
+						} else {
+							heapAll = true
+						}
+					} else if _, nested := ft.Underlying().(*types.Struct); nested {
 						heapAll = true
 					} else if _, isArr := ft.Underlying().(*types.Array); isArr {
 						heapAll = true
@@ -918,7 +956,14 @@ func (e *Enc) loopWrites(li *loopInfo) (cells map[*ssa.Alloc]bool, heapAll bool,
 					heapAll = true
 					break
 				}
+				curArgs = cc.Args
+				if cc.IsInvoke() {
+					curArgs = append([]ssa.Value{cc.Value}, cc.Args...)
+				} else if cc.StaticCallee() == nil {
+					curArgs = append([]ssa.Value{cc.Value}, cc.Args...) // callback contracts: self first
+				}
 				addSpecModifies(spec)
+				curArgs = nil
 			case *ssa.UnOp:
 				if ins.Op == token.ARROW {
 					if spec := e.chanSpec("recv", ins); spec != nil {
@@ -1428,6 +1473,32 @@ func (e *Enc) block(b *ssa.BasicBlock) {
 		}
 		hc0 := &blockState{e: e, b: b, g: g, st: st}
 		_ = hc0
+		// locations outside the modifies clause keep their entry values at old references: an implicit
+		// loop invariant (the loop havoc would otherwise forget it, and the exit frame obligation
+		// demands it anyway)
+		if cov, all, active := e.frameCovered(); active && !all && !heapAll {
+			var fk []string
+			for k := range heapKeys {
+				if k != "alloc" && !cov[k] {
+					fk = append(fk, k)
+				}
+			}
+			for k := range e.loopPointKeys {
+				if _, whole := heapKeys[k]; !whole && !cov[k] {
+					fk = append(fk, k)
+				}
+			}
+			sort.Strings(fk)
+			li.frameKeys = fk
+			for _, k := range fk {
+				if t, ok := e.framedTerm(li.entry, k); ok {
+					e.assert(g, fmt.Sprintf("loop%d.init.%s", li.ord, frameName(k)), "frame", t, "not in the modifies clause: "+k, b.Instrs[0].Pos())
+				}
+				if t, ok := e.framedTerm(st, k); ok {
+					e.assume(g, t)
+				}
+			}
+		}
 		li.head = st.clone()
 		hc := e.ctx(st, fmt.Sprintf("loop %d invariant", li.ord))
 		e.loopPos(hc, li)
@@ -1470,6 +1541,11 @@ func (e *Enc) addEdge(from, to *ssa.BasicBlock, guard string, st *State) {
 		guard = sb.g
 		for i, inv := range li.spec.Inv {
 			e.assert(guard, fmt.Sprintf("loop%d.preserve.%s%s", li.ord, clauseName(inv, i), sfx), "inv", c.boolT(inv.Expr), inv.Src, pos)
+		}
+		for _, k := range li.frameKeys {
+			if t, ok := e.framedTerm(st, k); ok {
+				e.assert(guard, fmt.Sprintf("loop%d.preserve.%s%s", li.ord, frameName(k), sfx), "frame", t, "not in the modifies clause: "+k, pos)
+			}
 		}
 		if li.spec.Dec != nil {
 			m := c.intT(li.spec.Dec.Expr)
@@ -1579,17 +1655,46 @@ func (e *Enc) finish() {
 	}
 }
 
-
 // frameObligations: the modifies clause is proved, not assumed. Every heap, ghost and global location
 // that existed at entry and is not named by the clause has its entry value at every normal exit.
 // (Objects allocated by the function are not part of the caller's frame; a closure may assign the
 // captured variables it writes.)
 func (e *Enc) frameObligations(g string, st *State) {
-	if e.spec == nil || e.spec.Trusted || e.spec.NoBody {
+	covered, all, active := e.frameCovered()
+	if !active || all {
 		return
 	}
-	covered := map[string]bool{}
-	all := false
+	pos := e.fn.Pos()
+	if hv, ok := st.m["hv:all"]; ok && hv != "false" {
+		e.assert(g, "frame.all", "frame", not(hv), "the function (or a loop it cannot summarise) may modify any location: its contract must say `modifies all`", pos)
+	}
+	var keys []string
+	for k := range st.m {
+		if (isHeapKey(k) || k == "alloc") && !covered[k] {
+			keys = append(keys, k)
+		}
+	}
+	sort.Strings(keys)
+	for _, k := range keys {
+		t, ok := e.framedTerm(st, k)
+		if !ok {
+			continue
+		}
+		e.assert(g, frameName(k), "frame", t, "not in the modifies clause: "+k, pos)
+	}
+}
+
+func frameName(k string) string {
+	return "frame." + sanitize(strings.TrimSuffix(strings.TrimPrefix(strings.TrimPrefix(strings.TrimPrefix(strings.TrimPrefix(k, "h:"), "g:"), "p:"), "m:"), ":0"))
+}
+
+// frameCovered: the state keys the function's modifies clause names (all: `modifies all`);
+// active is false for functions whose body is not checked.
+func (e *Enc) frameCovered() (covered map[string]bool, all bool, active bool) {
+	if e.spec == nil || e.spec.Trusted || e.spec.NoBody {
+		return nil, false, false
+	}
+	covered = map[string]bool{}
 	for _, m := range e.spec.Modifies {
 		switch {
 		case m == "all":
@@ -1623,12 +1728,9 @@ func (e *Enc) frameObligations(g string, st *State) {
 			}
 		}
 	}
-	if all {
-		return
-	}
 	// a function that takes a monitor's lock (or is entered holding it) lets other threads run:
 	// everything the monitor protects or owns, and the shared fields, may change
-	if e.mon != nil || e.spec.Holds != "" || e.spec.Thread == "any" {
+	if !all && (e.mon != nil || e.spec.Holds != "" || e.spec.Thread == "any") {
 		for _, m := range e.W.Specs.Monitors {
 			if e.mon != nil || e.spec.Holds != "" {
 				for _, ks := range e.monKeys(m) {
@@ -1642,59 +1744,41 @@ func (e *Enc) frameObligations(g string, st *State) {
 			}
 		}
 	}
-	pos := e.fn.Pos()
-	if hv, ok := st.m["hv:all"]; ok && hv != "false" {
-		e.assert(g, "frame.all", "frame", not(hv), "the function (or a loop it cannot summarise) may modify any location: its contract must say `modifies all`", pos)
+	return covered, all, true
+}
+
+// framedTerm: location k has, in state st, its entry value at every reference that existed at entry
+// (a closure may assign the captured variables it writes). ok is false when nothing changed.
+func (e *Enc) framedTerm(st *State, k string) (string, bool) {
+	so := e.sortOfKey(k)
+	now, has := st.m[k]
+	if !has {
+		return "", false
 	}
-	// captured variables this closure assigns
-	capRefs := map[string][]string{}
+	was := e.heapKey(e.entrySt, k, so)
+	if now == was {
+		return "", false
+	}
+	if k == "alloc" || strings.HasPrefix(k, "g:") {
+		return eq(now, was), true
+	}
+	alloc0 := e.entrySt.m["alloc"]
+	r := e.freshName("fr")
+	oldref := or(and(app("<", "0", r), app("<", r, alloc0)),
+		and(app("<", r, "0"), app("<", "0", app("subBase", r)), app("<", app("subBase", r), alloc0)),
+		and(app("<", r, "0"), app("<", app("subBase", r), "0"), app("<", "0", app("subBase", app("subBase", r))), app("<", app("subBase", app("subBase", r)), alloc0)))
+	conds := []string{oldref}
 	for _, fv := range e.fn.FreeVars {
 		if closureWrites(e.fn, fv) {
 			et := fv.Type().Underlying().(*types.Pointer).Elem()
-			if _, isSt := et.Underlying().(*types.Struct); isSt {
-				tmp := map[string]bool{}
-				e.objectKeys(et, tmp)
-				for k := range tmp {
-					capRefs[k] = append(capRefs[k], e.regs[fv].C[0])
-				}
-				continue
-			}
-			for j := range flatten(et) {
-				capRefs[ptrKey(et, j)] = append(capRefs[ptrKey(et, j)], e.regs[fv].C[0])
+			tmp := map[string]bool{}
+			e.objectKeys(et, tmp)
+			if tmp[k] {
+				conds = append(conds, not(eq(r, e.regs[fv].C[0])))
 			}
 		}
 	}
-	alloc0 := e.entrySt.m["alloc"]
-	var keys []string
-	for k := range st.m {
-		if (isHeapKey(k) || k == "alloc") && !covered[k] {
-			keys = append(keys, k)
-		}
-	}
-	sort.Strings(keys)
-	for _, k := range keys {
-		so := e.sortOfKey(k)
-		now := st.m[k]
-		was := e.heapKey(e.entrySt, k, so)
-		if now == was {
-			continue
-		}
-		name := "frame." + sanitize(strings.TrimSuffix(strings.TrimPrefix(strings.TrimPrefix(strings.TrimPrefix(strings.TrimPrefix(k, "h:"), "g:"), "p:"), "m:"), ":0"))
-		src := "not in the modifies clause: " + k
-		if k == "alloc" || strings.HasPrefix(k, "g:") {
-			e.assert(g, name, "frame", eq(now, was), src, pos)
-			continue
-		}
-		r := e.freshName("fr")
-		oldref := or(and(app("<", "0", r), app("<", r, alloc0)),
-			and(app("<", r, "0"), app("<", "0", app("subBase", r)), app("<", app("subBase", r), alloc0)),
-			and(app("<", r, "0"), app("<", app("subBase", r), "0"), app("<", "0", app("subBase", app("subBase", r))), app("<", app("subBase", app("subBase", r)), alloc0)))
-		conds := []string{oldref}
-		for _, c := range capRefs[k] {
-			conds = append(conds, not(eq(r, c)))
-		}
-		e.assert(g, name, "frame", fmt.Sprintf("(forall ((%s Int)) (=> %s (= (select %s %s) (select %s %s))))", r, and(conds...), now, r, was, r), src, pos)
-	}
+	return fmt.Sprintf("(forall ((%s Int)) (! (=> %s (= (select %s %s) (select %s %s))) :pattern ((select %s %s))))", r, and(conds...), now, r, was, r, now, r), true
 }
 
 // objectKeys adds the state keys that hold an object of type t.
@@ -1714,6 +1798,31 @@ func (e *Enc) objectKeys(t types.Type, out map[string]bool) {
 		}
 		for j := range flatten(ft) {
 			out[fieldKey(t, i, j)] = true
+		}
+	}
+}
+
+// objectKeySorts adds the state keys (with sorts) that hold an object of type t.
+func (e *Enc) objectKeySorts(t types.Type, out map[string]string) {
+	st, ok := t.Underlying().(*types.Struct)
+	if !ok {
+		for j, so := range flatten(t) {
+			out[ptrKey(t, j)] = "(Array Int " + so + ")"
+		}
+		return
+	}
+	for i := 0; i < st.NumFields(); i++ {
+		ft := st.Field(i).Type()
+		if _, nested := ft.Underlying().(*types.Struct); nested {
+			e.objectKeySorts(ft, out)
+			continue
+		}
+		if _, isArr := ft.Underlying().(*types.Array); isArr {
+			e.objectKeySorts(ft, out)
+			continue
+		}
+		for j, so := range flatten(ft) {
+			out[fieldKey(t, i, j)] = "(Array Int " + so + ")"
 		}
 	}
 }
